@@ -29,6 +29,20 @@ def overlap_guard(cond):
         for w_ in (("ext", "set", (raw,), ()), ("ext", "frozenset", (raw,), ()), strip_wrappers(raw)):
             t = subst(t, {w_: sym_})
         t = subst(t, {raw: sym_})
+    # np.intersect1d(a, b) is the (sorted) intersection; its size / length is the emptiness test, but `.any()` / np.any() asks
+    # whether a shared *index is non-zero*: index 0 alone is falsy, so an overlap in variable 0 would pass unnoticed
+    def fold_intersect(u):
+        if not isinstance(u, tuple):
+            return u
+        if u and u[0] == "ext" and u[1] == "numpy.intersect1d" and len(u[2]) == 2:
+            return ("binop", "&", fold_intersect(u[2][0]), fold_intersect(u[2][1]))
+        if u and u[0] == "attr" and u[2] == "size":
+            return ("ext", "len", (fold_intersect(u[1]),), ())
+        return tuple(fold_intersect(c_) for c_ in u)
+    t = fold_intersect(t)
+    inter_ = (("binop", "&", Y_, X_), ("binop", "&", X_, Y_))
+    if (t[0] == "method" and t[2] in ("any", "all") and t[1] in inter_) or (t[0] == "ext" and t[1] in ("numpy.any", "any", "numpy.all", "all") and t[2] and t[2][0] in inter_):
+        return False
     # membership mask: m = zeros(n, bool); m[A] = True; m[B].any()   <=>   A and B share an element
     def mask_any(u):
         if u[0] == "method" and u[2] == "any" and not u[3]:
@@ -222,6 +236,10 @@ def run(prog, rep, tier):
     rep.assume("self.covariance is symmetric (a covariance matrix)")
     rep.assume("equality is over the reals; floating-point accuracy of inv() is not decided")
     # no branch / index of the computation may depend on the *values* of the moments
+    # the query must leave x / X / Y and the distribution alone: conditioning twice on the same arrays is conditioning on the same values
+    from .common import no_foreign_writes
+    no_foreign_writes(rep, prog, ND + "conditional", rule="OWN.conditional")
+    no_foreign_writes(rep, prog, ND + "marginal", rule="OWN.marginal")
     pattern_method(prog, rep, ND + "conditional", ["mean", "covariance"], rule="NODECISION")
     pattern_method(prog, rep, ND + "marginal", ["mean", "covariance"], rule="NODECISION")
     rep.require_count("FORMULA", 5)
